@@ -15,6 +15,7 @@ import (
 type Closure struct {
 	Lit  *ast.FuncLit
 	Info *types.Info
+	Sig  *types.Signature // set for a /repo function inlined as if it were a literal
 }
 
 type deferred struct {
@@ -188,6 +189,7 @@ type FuncVerifier struct {
 	yieldVar       *types.Var
 	nondet         []string // sources of nondeterminism met while executing (for `functional`)
 	panicStates    []panicExit // exceptional exits met while executing (see forkPanic)
+	inlineStack    []string    // keys of /repo functions currently being executed inline
 	curState       *State
 	localOnly      map[types.Object]bool
 	allocTerms     map[string]bool
